@@ -147,6 +147,32 @@ def check_C20(ctx):
                 ctx.violation("string content or comment extent not respected", dict(src_hex=c["src"].hex(),
                               src=c["src"].decode("utf8", "replace")), impl=o, model=c["want"].decode("utf8", "replace"),
                               theorem="C20_string_opaque/C20_comment_extent", key="string-or-comment")
+    pg = []
+    for pad in list(range(4078, 4100)):
+        for k, body in enumerate([b'print "a#\xc3\xa9;(b)"\n', "print 1 \u00a0+ 2\n".encode(), "print 1 \u0085+ 2\n".encode(), 'print "\U0001F600" + 1\n'.encode(),
+                                  "var s = \"€\"\nprint s # \u00e9\n".encode()]):
+            pg.append(dict(id="pg%d-%d" % (pad, k), name="f", src_hex=(b"var a = 1" + b" " * pad + body).hex(), partitions=[[4096], [4095], [4097]]))
+    pres, pmiss, perr = ctx.probe("chunks", pg, tag="pages")
+    outs = {}
+    for c in pg:
+        r = pres.get(c["id"])
+        if not r:
+            continue
+        k = c["id"].split("-")[1]
+        for p in r["parts"]:
+            ctx.count(1, casehash(c["src_hex"][-60:], c["id"], json.dumps(p["sizes"])))
+            if not p["same"]:
+                ctx.violation("the number of blanks between two tokens changes the result when the file is read in pages (reads %s)" % p["sizes"],
+                              dict(blanks=int(c["id"][2:].split("-")[0]), tail=bytes.fromhex(c["src_hex"])[-40:].decode("utf8", "replace"), sizes=p["sizes"]),
+                              impl=p.get("obs"), model=r["whole"], theorem="C20_layout_any", key="layout-paged")
+                break
+        w = r["whole"]
+        outs.setdefault(k, set()).add((w.get("Class"), w.get("Err"), parts_code_consts(w.get("Parts", ""))))
+    for k, v in outs.items():
+        if len(v) > 1:
+            ctx.violation("sources differing only in the number of blanks between two tokens compile differently", dict(body=k), impl=sorted(map(str, v))[:3],
+                          theorem="C20_layout_any", key="layout-blanks")
+    ctx.suite_stats["layout"]["paged"] = len(pg)
     ctx.suite_stats["layout"]["pairs"] = npairs
     ctx.suite_stats["layout"]["direct"] = len(direct)
     for a, b in pairs[:2]:
